@@ -111,7 +111,7 @@ impl Prop for C12 {
             v.push(format!("sens:{}:order1", r));
             v.push(format!("sens:{}:order2", r));
         }
-        for c in ["built:ad0", "built:ad1", "built:ad2", "nodes:float", "nodes:dual-with-foreign-names", "nodes:mixed-kinds", "index:with-base", "index:without-base", "index:before-first-node", "tags:checked", "outside-interval-zero"] {
+        for c in ["built:ad0", "built:ad1", "built:ad2", "nodes:float", "nodes:dual-with-foreign-names", "nodes:mixed-kinds", "index:with-base", "index:without-base", "index:before-first-node", "tags:checked", "outside-interval-zero", "node-count:up-to-10", "node-count:11-to-100", "node-count:more-than-100"] {
             v.push(c.to_string());
         }
         v
@@ -120,7 +120,7 @@ impl Prop for C12 {
         tier.pick(200_000, 20_000_000)
     }
     fn rule(&self) -> String {
-        "C11's curves (unsorted supply on purpose) built through the Python-facing constructor with ad in {0,1,2} from float nodes, from Dual/Dual2 nodes carrying foreign variable names and coefficients, and from mixed kinds; random sequences of 1-8 derivative-order switches among 0,1,2. After every switch: ad() is right, every looked-up value is unchanged (<=4 ulp), node i (date order) of a float curve is tagged '<id><i>' with unit sensitivity, names survive 1<->2 switches, and gradient / Hessian of every looked-up value equal the derivatives of the rule's closed form w.r.t. the node values (reference AD with noise band; zero for nodes outside the interval). index_value = base/value, 0 before the first node, Err without a base. A history model (node values as reference numbers + current names) predicts every read. distinct_nontrivial = distinct (rule, node count, build order, node kind, switch sequence).".into()
+        "C11's curves (unsorted supply on purpose; mostly 2..8 nodes (thorough 2..14), one in eight with 12..26 and one in 128 with more than 100 nodes, so that node numbers in the tags have two and three digits) built through the Python-facing constructor with ad in {0,1,2} from float nodes, from Dual/Dual2 nodes carrying foreign variable names and coefficients, and from mixed kinds; random sequences of 1-8 derivative-order switches among 0,1,2. After every switch: ad() is right, every looked-up value is unchanged (<=4 ulp), node i (date order) of a float curve is tagged '<id><i>' with unit sensitivity, names survive 1<->2 switches, and gradient / Hessian of every looked-up value equal the derivatives of the rule's closed form w.r.t. the node values (reference AD with noise band; zero for nodes outside the interval). index_value = base/value, 0 before the first node, Err without a base. A history model (node values as reference numbers + current names) predicts every read. distinct_nontrivial = distinct (rule, node count, build order, node kind, switch sequence).".into()
     }
     fn assumptions(&self) -> Vec<String> {
         vec![
@@ -130,8 +130,31 @@ impl Prop for C12 {
     }
     fn run_case(&mut self, ctx: &mut Ctx, _phase: usize, idx: u64, rng: &mut Rng) {
         let rule = RULES[(idx % 5) as usize];
-        let c = gen_curve(rng, rule, ctx.tier.pick(8, 14));
+        // one case in eight has many nodes (12..26: two-digit node numbers in the tags), one in 128 more than a
+        // hundred (three-digit numbers); the rest stay small
+        let c = if idx % 128 == 127 {
+            loop {
+                let c = gen_curve(rng, rule, 112);
+                if c.n() > 100 {
+                    break c;
+                }
+            }
+        } else if idx % 8 == 7 {
+            loop {
+                let c = gen_curve(rng, rule, 26);
+                if c.n() >= 12 {
+                    break c;
+                }
+            }
+        } else {
+            gen_curve(rng, rule, ctx.tier.pick(8, 14))
+        };
         let n = c.n();
+        ctx.class(match n {
+            0..=10 => "node-count:up-to-10",
+            11..=100 => "node-count:11-to-100",
+            _ => "node-count:more-than-100",
+        });
         let build_ad = ((idx / 5) % 3) as usize;
         let node_kind = match (idx / 15) % 3 {
             0 => "float",
